@@ -278,13 +278,34 @@ func c09Build(driver string, threads int) [][]c09Call {
 			i := i
 			out[i] = []c09Call{mk("laypage", func(b *bytes.Buffer) error { return t.New().Fill(tdata(i)).RenderFile(bg, b, "h15_page.vuego") })}
 		}
+	case "H17-shared-defaults-plus-assign":
+		// every request fills the same read-only map of defaults and assigns its own value on top
+		// (an engine without config files, a page without front-matter)
+		plain := Files{"h17_page.vuego": `<p>{{ site }}: {{ canary }}</p><i v-if="canary">{{ n }}</i>`}
+		t := vuego.NewFS(plain.FS())
+		shared := map[string]any{"site": "Example", "n": 3}
+		for i := range out {
+			i := i
+			out[i] = []c09Call{mk("assign", func(b *bytes.Buffer) error {
+				return t.Load("h17_page.vuego").Fill(shared).Assign("canary", fmt.Sprintf("CANARY_T%d", i)).Render(bg, b)
+			}), mk("plain", func(b *bytes.Buffer) error {
+				return t.Load("h17_page.vuego").Fill(shared).Render(bg, b)
+			})}
+		}
+	case "H18-less-processor":
+		lessFiles := Files{"h18_page.vuego": `<style type="text/css+less">@c: red; .a { color: @c; .b { top: 0; } }</style><p class="a">{{ canary }}</p>`}
+		t := vuego.NewFS(lessFiles.FS(), vuego.WithLessProcessor())
+		for i := range out {
+			i := i
+			out[i] = []c09Call{mk("less", func(b *bytes.Buffer) error { return t.Load("h18_page.vuego").Fill(tdata(i)).Render(bg, b) })}
+		}
 	default:
 		panic("unknown driver " + driver)
 	}
 	return out
 }
 
-var c09Drivers = []string{"H1-cold-cache-same-file", "H2-shared-caller-map", "H3-v-once-warm", "H4-unseen-paths-and-expressions", "H4b-path-cache-at-limit", "H5-include-slots-layout-filters", "H6-files-edited-underneath", "H7-renderstring-on-new", "H8-funcs-and-errors", "H9-components-with-v-once-and-wrappers", "H10-same-page-different-data", "H11-front-matter-page-with-template-variables-vue", "H12-front-matter-page-with-template-variables-load", "H13-attribute-slices-with-spare-capacity-vue", "H14-attribute-slices-with-spare-capacity-load", "H15-layout-page-with-v-once-and-shorthand", "H16-layout-page-warm"}
+var c09Drivers = []string{"H1-cold-cache-same-file", "H2-shared-caller-map", "H3-v-once-warm", "H4-unseen-paths-and-expressions", "H4b-path-cache-at-limit", "H5-include-slots-layout-filters", "H6-files-edited-underneath", "H7-renderstring-on-new", "H8-funcs-and-errors", "H9-components-with-v-once-and-wrappers", "H10-same-page-different-data", "H11-front-matter-page-with-template-variables-vue", "H12-front-matter-page-with-template-variables-load", "H13-attribute-slices-with-spare-capacity-vue", "H14-attribute-slices-with-spare-capacity-load", "H15-layout-page-with-v-once-and-shorthand", "H16-layout-page-warm", "H17-shared-defaults-plus-assign", "H18-less-processor"}
 
 // c09Reset puts every piece of process-global state the engine has into its initial state.
 func c09Reset(driver string) {
